@@ -33,6 +33,25 @@ def goenv():
     return e
 
 
+_SANDBOX = None
+
+
+def harness_sandbox_available():
+    """True when `unshare -m` + bind/remount work here (they need CAP_SYS_ADMIN); VERIF_NO_SANDBOX=1 switches it off."""
+    global _SANDBOX
+    if _SANDBOX is None:
+        if os.environ.get("VERIF_NO_SANDBOX") == "1":
+            _SANDBOX = False
+        else:
+            try:
+                p = subprocess.run(["unshare", "-m", "sh", "-c", "mount --make-rprivate / && mount --bind /tmp /tmp && mount -o remount,bind,ro / && ! touch /.verif-ro-probe 2>/dev/null && touch /tmp/.verif-rw-probe && rm -f /tmp/.verif-rw-probe"],
+                                   stdout=subprocess.DEVNULL, stderr=subprocess.DEVNULL, timeout=20)
+                _SANDBOX = p.returncode == 0
+            except Exception:
+                _SANDBOX = False
+    return _SANDBOX
+
+
 def sh(cmd, cwd=None, timeout=None, env=None):
     t0 = time.time()
     try:
@@ -386,10 +405,20 @@ def main():
         # against changed trees: its working directory is a private, empty directory, never a directory of this development
         # (a changed Rm("") once removed the working directory's contents).
         hcwd = os.path.join(outdir, "cwd")
-        shutil.rmtree(hcwd, ignore_errors=True)
-        os.makedirs(hcwd, exist_ok=True)
+        htmp = os.path.join(outdir, "tmp")
+        for d_ in (hcwd, htmp):
+            shutil.rmtree(d_, ignore_errors=True)
+            os.makedirs(d_, exist_ok=True)
+        os.chmod(htmp, 0o1777)
+        # ... and, where the sandbox allows mount namespaces, the harness sees the whole file system read-only except its
+        # output directory and a private /tmp (same path prefix as outside, so temporary-file names look as usual).
+        if harness_sandbox_available():
+            script = ('mount --make-rprivate / && mount --bind "$0" "$0" && mount --bind "$1" /tmp && mount -o remount,bind,ro / '
+                      '&& cd "$2" && shift 2 && exec "$@"')
+            cmd = ["unshare", "-m", "sh", "-c", script, outdir, htmp, hcwd] + cmd
         rc_, out_, wall_ = sh(cmd, cwd=hcwd, timeout=to, env=henv)
-        shutil.rmtree(hcwd, ignore_errors=True)
+        for d_ in (hcwd, htmp):
+            shutil.rmtree(d_, ignore_errors=True)
         try:
             o = json.load(open(os.path.join(outdir, "obs.json")))
         except Exception:
@@ -405,7 +434,8 @@ def main():
             note("harness produced no observations (rc=%s):\n%s" % (hrc, hout[-1500:]))
             broken.append({"kind": "harness-run", "name": hname, "detail": hout[-1500:]})
         else:
-            note("harness: %d evaluations, %d failures, %.1fs" % (obs.get("evaluations", 0), len(obs.get("failures", [])), hwall))
+            note("harness: %d evaluations, %d failures, %.1fs%s" % (obs.get("evaluations", 0), len(obs.get("failures", [])), hwall,
+                 " (run in a mount namespace: file system read-only except its output directory and a private /tmp)" if harness_sandbox_available() else ""))
 
     # ---- 4. correspondence
     if obs is not None and any(b["kind"] == "proof" and b["name"].startswith("model:") for b in broken) is False:
